@@ -16,8 +16,9 @@ import time
 from . import build
 
 VERIF = build.VERIF
-EVID = os.path.join(VERIF, "evidence")
-REPLAY = os.path.join(VERIF, "replay")
+EVID = os.environ.get("VERIF_EVID_DIR") or os.path.join(VERIF, "evidence")
+REPLAY = (os.path.join(os.environ["VERIF_EVID_DIR"], "replay") if os.environ.get("VERIF_EVID_DIR")
+          else os.path.join(VERIF, "replay"))
 KNOWN = os.path.join(VERIF, "known_findings.txt")
 NCPU = min(16, os.cpu_count() or 4)
 
@@ -189,7 +190,9 @@ class Proc:
         self.restarts += 1
         if why == "timeout":
             raise HarnessCrash("timeout", "wall clock watchdog", partial)
-        if any(b"TIMEOUT" in l for l in partial[-2:]) or rc == 3:
+        def _b(x):
+            return x if isinstance(x, bytes) else str(x).encode("utf-8", "replace")
+        if any(b"TIMEOUT" in _b(l) for l in partial[-2:]) or rc == 3:
             raise HarnessCrash("timeout", "cpu budget exhausted", partial)
         head, frames = san_summary(err)
         if head:
